@@ -4,6 +4,8 @@ import (
 	"bytes"
 	"fmt"
 	"strings"
+	"sync"
+	"time"
 
 	"github.com/fluffle/goirc/client"
 
@@ -81,7 +83,7 @@ func init() {
 		Rule: "every exported command method (28) is called over a live in-memory connection with every argument position (incl. variadic tails of 0..3) set to each hostile string " +
 			"(CR/LF/CRLF at start, middle, end, CRLF+second command, NUL, \\x01, empty, 5000 bytes, leading ':'/space, format verbs) with the other positions benign, for every SplitLen in {-1,0,5,13,450}, " +
 			"plus PRNG combinations with several hostile positions; the bytes between consecutive Raw(\"VSYNC n\") separators are attributed to call n and must be (CR/LF-free line CRLF)* with each line " +
-			"starting with the method's verb followed by space or end (Raw: equal to the argument up to its first CR/LF). distinct_nontrivial = distinct (method, position, hostile-class, SplitLen) cells whose arguments contained CR or LF or another hostile byte.",
+			"starting with the method's verb followed by space or end (Raw: equal to the argument up to its first CR/LF). A concurrent mode lets 2..8 goroutines call non-splitting methods (incl. 6000-byte arguments) while the server sends PINGs and reads in bursts: the wire must hold exactly the expected whole lines. distinct_nontrivial = distinct (method, position, hostile-class, SplitLen) cells whose arguments contained CR or LF or another hostile byte.",
 		Assumptions: []string{"calls are issued from one goroutine so FIFO separators attribute bytes to calls", "flood control off (Flood=true) so that 10^5 lines can be written"},
 		Plan: func(tier string, seed int64) []Batch {
 			bs := []Batch{{Name: "enum", Args: map[string]string{"mode": "enum"}, Race: false, Procs: 2}}
@@ -91,6 +93,9 @@ func init() {
 			}
 			bs = append(bs, splitBatches("prng", n, false, 2, map[string]string{"mode": "prng"})...)
 			bs = append(bs, Batch{Name: "race", Args: map[string]string{"mode": "prng", "part": "97", "parts": "100", "count": "3000"}, Race: true, Procs: 4})
+			for _, p := range []int{2, 8} {
+				bs = append(bs, Batch{Name: fmt.Sprintf("conc-p%d", p), Args: map[string]string{"mode": "conc", "procs": fmt.Sprint(p)}, Race: true, Procs: p, Weight: min(p, 4)})
+			}
 			return bs
 		},
 		Run: runC08,
@@ -254,6 +259,8 @@ func runC08(c *Ctx) {
 			cs.close()
 		}
 		c.R.Exhaustive["28 methods x every argument position x 22 hostile strings x 5 SplitLen values (others benign)"] = c.Only == ""
+	case "conc":
+		runC08Conc(c)
 	case "prng":
 		part, parts := c.ArgInt("part", 0), c.ArgInt("parts", 1)
 		total := c.Pick(120_000, 2_000_000)
@@ -306,6 +313,143 @@ func runC08(c *Ctx) {
 		}
 		if cs != nil {
 			cs.close()
+		}
+	}
+}
+
+// runC08Conc: several goroutines call command methods at once while server
+// PINGs are answered by the built-in handler; every byte on the wire must
+// belong to exactly one whole expected line.
+func runC08Conc(c *Ctx) {
+	rounds := c.Pick(25, 300)
+	procs := c.Arg("procs", "?")
+	for idx := 0; idx < rounds; idx++ {
+		if !c.Want("conc", idx) {
+			continue
+		}
+		r := rig.Rand(c.Seed, "C08", "conc", procs, idx)
+		cs := c08Open(c, 450)
+		if cs == nil {
+			return
+		}
+		ng := 2 + r.Intn(7)
+		per := 30 + r.Intn(60)
+		nPings := []int{0, 10, 60}[r.Intn(3)]
+		c.J.Log("CASE %s goroutines=%d calls=%d pings=%d", Case("conc", idx), ng, per, nPings)
+		expected := map[string]int{}
+		type call struct{ f func(*client.Conn) }
+		plans := make([][]call, ng)
+		for g := 0; g < ng; g++ {
+			rg := rig.Rand(c.Seed, "C08", "concg", procs, idx, g)
+			for k := 0; k < per; k++ {
+				tag := fmt.Sprintf("g%dk%d", g, k)
+				text := tag
+				if rg.Intn(15) == 0 {
+					text = tag + " " + strings.Repeat("L", 4090+rg.Intn(2500)) // beyond the 4096-byte write buffer
+				}
+				var want string
+				var f func(*client.Conn)
+				switch rg.Intn(8) {
+				case 0:
+					want, f = "TOPIC #c :"+text, func(cc *client.Conn) { cc.Topic("#c", text) }
+				case 1:
+					want, f = "PART #c :"+text, func(cc *client.Conn) { cc.Part("#c", text) }
+				case 2:
+					want, f = "KICK #c n :"+text, func(cc *client.Conn) { cc.Kick("#c", "n", text) }
+				case 3:
+					want, f = "INVITE "+tag+" #c", func(cc *client.Conn) { cc.Invite(tag, "#c") }
+				case 4:
+					want, f = "PONG :"+text, func(cc *client.Conn) { cc.Pong(text) }
+				case 5:
+					want, f = "PING :"+text, func(cc *client.Conn) { cc.Ping(text) }
+				case 6:
+					want, f = "MODE #c +k "+tag, func(cc *client.Conn) { cc.Mode("#c", "+k", tag) }
+				default:
+					want, f = "AWAY :"+text, func(cc *client.Conn) { cc.Away(text) }
+				}
+				expected[want]++
+				plans[g] = append(plans[g], call{f})
+			}
+		}
+		for k := 0; k < nPings; k++ {
+			expected[fmt.Sprintf("PONG :srvtok%d", k)]++
+		}
+		if r.Intn(2) == 0 {
+			cs.mc.Stall(0)
+		}
+		done := make(chan struct{})
+		go func() {
+			var wg sync.WaitGroup
+			for g := 0; g < ng; g++ {
+				wg.Add(1)
+				go func(g int) {
+					defer wg.Done()
+					for _, cl := range plans[g] {
+						cl.f(cs.s.Conn)
+					}
+				}(g)
+			}
+			wg.Wait()
+			close(done)
+		}()
+		for k := 0; k < nPings; k++ {
+			cs.mc.SendLine(fmt.Sprintf("PING :srvtok%d", k))
+		}
+		for k := 0; k < 300; k++ {
+			select {
+			case <-done:
+			default:
+				cs.mc.Allow(1 + r.Intn(10))
+				time.Sleep(time.Duration(20+r.Intn(200)) * time.Microsecond)
+				continue
+			}
+			break
+		}
+		cs.mc.Resume()
+		if !waitCh(done) || !cs.s.FgMarker(cs.mc) {
+			ds := rig.ProveDead(WaitShort)
+			if cs.mc.Closed() {
+				c.R.Violate(rig.Violation{Sig: "c08|conc-connection-lost", Detail: "the client closed the connection while several goroutines were sending (a write must have failed or been corrupted)", Case: Case("conc", idx)})
+			} else if ds.Dead {
+				c.R.Violate(rig.Violation{Sig: "c08|conc-stuck|" + ds.Signature, Detail: "concurrent senders never finished: dead state " + ds.Signature, Case: Case("conc", idx)})
+			} else {
+				c.R.Inconcl(fmt.Sprintf("%s: concurrent senders did not finish (%s)", Case("conc", idx), ds.Reason))
+			}
+			return
+		}
+		cs.s.Conn.Raw("VSYNC conc")
+		if !cs.mc.WaitLines(WaitLong, func(lines []string) bool { return len(lines) > 0 && lines[len(lines)-1] == "VSYNC conc" }) {
+			if cs.mc.Closed() {
+				c.R.Violate(rig.Violation{Sig: "c08|conc-connection-lost", Detail: "the client closed the connection while several goroutines were sending", Case: Case("conc", idx)})
+			} else {
+				c.R.Inconcl(fmt.Sprintf("%s: separator not seen", Case("conc", idx)))
+			}
+			return
+		}
+		lines, raw := cs.mc.Take()
+		c.R.Eval(1)
+		c.R.Count("concurrent_lines", int64(len(lines)))
+		if !bytes.HasSuffix(raw, []byte("\r\n")) || bytes.Count(raw, []byte("\r\n")) != len(lines) || bytes.Count(raw, []byte("\n")) != len(lines) || bytes.Count(raw, []byte("\r")) != len(lines) {
+			c.R.Violate(rig.Violation{Sig: "c08|conc-framing", Detail: "the byte stream is not a sequence of CRLF-terminated lines free of bare CR/LF", Case: Case("conc", idx)})
+		}
+		for _, l := range lines[:len(lines)-1] {
+			if expected[l] == 0 {
+				c.R.Violate(rig.Violation{Sig: "c08|conc-foreign-or-torn-line", Detail: fmt.Sprintf("line %q on the wire is not a whole line of any call that was made", clipS(l)), Case: Case("conc", idx)})
+				break
+			}
+			expected[l]--
+		}
+		missing := 0
+		for _, n := range expected {
+			missing += n
+		}
+		if missing != 0 && c.R.NumViolations() == 0 {
+			c.R.Violate(rig.Violation{Sig: "c08|conc-line-missing", Detail: fmt.Sprintf("%d expected lines never reached the wire whole", missing), Case: Case("conc", idx)})
+		}
+		c.R.Class(fmt.Sprintf("conc|g%d|pings=%v|procs=%s", min(ng, 5), nPings > 0, procs))
+		cs.close()
+		if c.R.NumViolations() > 10 {
+			return
 		}
 	}
 }
